@@ -186,6 +186,28 @@ impl LoopSignal {
         ensures
             // (stated on the loop so that it holds for either form of it: `while !stop {..}` or `loop { if stop { break } .. }`)
             w_flag_loaded(old(self).stop_flag(), true),
+//@ alt
+//@ rw R19 * <<self.signals.stop.store(>> => <<flag_store(&self.signals.stop, >>
+//@ rw R19 * <<self.signals.stop.load(Ordering::Acquire)>> => <<flag_load_at(&self.signals.stop, Ordering::Acquire, Ghost(*data))>>
+//@ before <<self.dispatch_events(timeout, data)?;>>
+            // (alternative overlay for a body that calls the two phases of dispatch() itself: same contract -- a new iteration's
+            //  event phase is entered only right after a stop check that said "not stopped")
+            assert(w_flag_loaded_at(self.stop_flag(), false, *data));
+//@ after <<self.dispatch_idles(data);>>
+            proof { dispatched = Some(*data); }
+//@ entry
+        let ghost mut dispatched: Option<Data> = None;
+//@ loop 1
+        invariant
+            forall|d: &mut Data| #[trigger] call_requires(cb, (d,)),
+            self.stop_flag() == old(self).stop_flag(),
+            w_flag_stored(old(self).stop_flag(), false),
+            forall|d: &mut Data| #[trigger] call_ensures(cb, (d,), ()) ==> w_closure_ran(*d),
+            // C11: every iteration that dispatched has also run the per-iteration closure (on the state the dispatch left)
+            dispatched matches Some(d0) ==> w_closure_ran(d0),
+        ensures
+            // (stated on the loop so that it holds for either form of it: `while !stop {..}` or `loop { if stop { break } .. }`)
+            w_flag_loaded(old(self).stop_flag(), true),
 //@ enditem
 //@ close
 
